@@ -214,3 +214,860 @@ Proof. exact Lit_Var_run. Qed.
 Lemma Lit_IsPositive_run_go : forall h l,
   run_to go_funs "Lit.IsPositive" [VInt l] h (OReturn (VBool (go_Lit_IsPositive l)) h).
 Proof. exact Lit_IsPositive_run. Qed.
+(* ================================================================== pbSet.divideBy *)
+
+Ltac lkh := repeat match goal with H : lookup ?x ?e = Some _ |- context [lookup ?x ?e] => rewrite H end.
+Ltac ev := repeat (progress (gocbn; lk; lkh)).
+
+Definition div_loop : stmt :=
+  Eval cbv in match f_body src_pbSet_divideBy with SSeq (SSeq l _) _ => l | _ => SSkip end.
+Definition div_card_step : stmt :=
+  Eval cbv in match f_body src_pbSet_divideBy with SSeq (SSeq _ s) _ => s | _ => SSkip end.
+
+Lemma src_divideBy_shape : f_body src_pbSet_divideBy = SSeq (SSeq div_loop div_card_step) (SReturn (EInt 0)).
+Proof. reflexivity. Qed.
+
+Lemma eqb_false_of_ne : forall a b, a <> b -> (a =? b) = false.
+Proof. intros a b H. apply Z.eqb_neq. exact H. Qed.
+
+Lemma div_loop_run : forall c sw sc ws card st,
+  c <> 0 -> lookup "pb" (locals st) = Some (pbset_val sw sc) -> lookup "coeff" (locals st) = Some (VInt c) ->
+  pbset_at (hp st) sw sc (ws, card) ->
+  exists st', runs go_funs div_loop st (ONormal st') /\
+    lookup "pb" (locals st') = Some (pbset_val sw sc) /\ lookup "coeff" (locals st') = Some (VInt c) /\
+    only_wins [sw; sc] (hp st) (hp st') /\ pbset_at (hp st') sw sc (map (div_w c) ws, card).
+Proof.
+  intros c sw sc ws card st Hc Lpb Lc Hrep.
+  pose proof (pbset_at_len _ _ _ _ Hrep) as Hlen.
+  destruct Hrep as (Hokw & Hokc & Hne & Hlc & Hrw & Hrc). cbn [fst snd] in *.
+  set (I := fun (j : nat) (st1 : state) =>
+    lookup "pb" (locals st1) = Some (pbset_val sw sc) /\ lookup "coeff" (locals st1) = Some (VInt c) /\
+    only_wins [sw; sc] (hp st) (hp st1) /\
+    sl_read (hp st1) sw = map (div_w c) (firstn j ws) ++ skipn j ws /\ sl_read (hp st1) sc = [card]).
+  unfold div_loop.
+  match goal with |- context [SRange _ _ _ ?b] => set (body := b) end.
+  destruct (runs_range_inv_c go_funs "j" "wj" (EFld (EVar "pb") 0) body st sw I) as (st' & Hrun & HI).
+  - unfold pbset_val in *. ev. reflexivity.
+  - unfold I. repeat split; assumption.
+  - intros j [loc0 hp0] Hj (Lpb0 & Lc0 & Hfr & Hrd & Hrdc). cbn [locals hp] in *.
+    assert (HlenP : length (map (div_w c) (firstn j ws)) = j) by (rewrite map_length, firstn_length_le; lia).
+    assert (Hnth : nth (s_off sw + j) (arr_of hp0 (s_arr sw)) 0 = nth j ws 0).
+    { rewrite <- nth_sl_read by exact Hj. rewrite Hrd. apply nth_prefix_skipn. exact HlenP. }
+    unfold range_pre, get_sl, set_local. cbn [String.eqb Ascii.eqb Bool.eqb locals hp]. rewrite Hnth.
+    set (w := nth j ws 0) in *.
+    set (pre := St (upd "wj" (VInt w) (upd "j" (VInt (Z.of_nat j)) loc0)) hp0).
+    assert (Hsn : firstn (S j) ws = firstn j ws ++ [w]) by (apply firstn_S_nth; lia).
+    destruct (Z.eqb_spec w 0) as [Hw0|Hw0].
+    + exists (OContinue pre), pre. split; [|split; [apply goes_on_continue|]].
+      * apply runs_seq_abrupt; [|exact Logic.I]. eapply runs_if_true; [|apply runs_continue].
+        unfold pre. ev. rewrite Hw0. reflexivity.
+      * unfold I, pre. cbn [locals hp]. lk. refine (conj Lpb0 (conj Lc0 (conj Hfr (conj _ Hrdc)))).
+        rewrite Hsn, map_app. cbn [map]. rewrite Hrd.
+        replace (div_w c w) with w by (rewrite Hw0; reflexivity).
+        apply prefix_keep. lia.
+    + assert (Ew : (w =? 0) = false) by (apply Z.eqb_neq; exact Hw0).
+      assert (Ec : (c =? 0) = false) by (apply Z.eqb_neq; exact Hc).
+      assert (Hinv : forall y, y = div_w c w ->
+        I (S j) (St (locals pre) (heap_write hp0 (s_arr sw) (s_off sw + j) [y]))).
+      { intros y Hy. unfold I, pre. cbn [locals hp]. lk. refine (conj Lpb0 (conj Lc0 (conj _ (conj _ _)))).
+        - apply only_wins_write; [exact Hfr|left; reflexivity|exact Hj].
+        - rewrite sl_read_write_nth by (try exact Hj; eapply only_wins_ok; eassumption).
+          rewrite Hrd, prefix_step by exact HlenP. rewrite Hsn, map_app, Hy. reflexivity.
+        - rewrite sl_read_heap_write_other by congruence. exact Hrdc. }
+      assert (Hset : forall e y, eval pre e = EV (VInt y) ->
+        runs go_funs (SSetIdx (EFld (EVar "pb") 0) (EVar "j") e) pre
+          (ONormal (St (locals pre) (heap_write hp0 (s_arr sw) (s_off sw + j) [y])))).
+      { intros e y He.
+        assert (R : runs go_funs (SSetIdx (EFld (EVar "pb") 0) (EVar "j") e) pre
+          (ONormal (St (locals pre) (heap_write (hp pre) (s_arr sw) (s_off sw + Z.to_nat (Z.of_nat j)) [y])))).
+        { apply (runs_setidx go_funs _ _ _ pre sw (Z.of_nat j) y); [| |exact He|lia].
+          - unfold pre, pbset_val in *. ev. reflexivity.
+          - unfold pre. ev. reflexivity. }
+        rewrite Nat2Z.id in R. exact R. }
+      assert (Hskip : runs go_funs (SIf (EBin Eq (EVar "wj") (EInt 0)) SContinue SSkip) pre (ONormal pre)).
+      { eapply runs_if_false; [|apply runs_skip]. unfold pre. ev. rewrite Ew. reflexivity. }
+      unfold div_w in Hinv. rewrite Ew in Hinv.
+      destruct (Z.rem w c =? 0) eqn:Er; [|destruct (0 <? w) eqn:Ep].
+      * eexists (ONormal _), _. split; [|split; [apply goes_on_normal|apply Hinv; reflexivity]].
+        eapply runs_seq; [exact Hskip|]. eapply runs_if_true; [unfold pre; ev; rewrite Ec; ev; rewrite Er; reflexivity|].
+        apply Hset. unfold pre. ev. rewrite Ec. reflexivity.
+      * eexists (ONormal _), _. split; [|split; [apply goes_on_normal|apply Hinv; reflexivity]].
+        eapply runs_seq; [exact Hskip|]. eapply runs_if_false; [unfold pre; ev; rewrite Ec; ev; rewrite Er; reflexivity|].
+        eapply runs_if_true; [unfold pre; ev; rewrite Ep; reflexivity|].
+        apply Hset. unfold pre. ev. rewrite Ec. reflexivity.
+      * eexists (ONormal _), _. split; [|split; [apply goes_on_normal|apply Hinv; reflexivity]].
+        eapply runs_seq; [exact Hskip|]. eapply runs_if_false; [unfold pre; ev; rewrite Ec; ev; rewrite Er; reflexivity|].
+        eapply runs_if_false; [unfold pre; ev; rewrite Ep; reflexivity|].
+        apply Hset. unfold pre. ev. rewrite Ec. reflexivity.
+  - destruct HI as (Lpb' & Lc' & Hfr' & Hrd' & Hrdc'). exists st'. split; [exact Hrun|].
+    refine (conj Lpb' (conj Lc' (conj Hfr' _))).
+    rewrite Hlen, firstn_all, skipn_all, app_nil_r in Hrd'.
+    unfold pbset_at. cbn [fst snd].
+    refine (conj _ (conj _ (conj Hne (conj Hlc (conj Hrd' Hrdc'))))); eapply only_wins_ok; eassumption.
+Qed.
+
+(* ---- the boxed card *)
+
+Definition card_set (h : heap) (sc : slice) (y : Z) : heap := heap_write h (s_arr sc) (s_off sc + 0) [y].
+
+Lemma eval_card : forall st e sw sc card, eval st e = EV (pbset_val sw sc) -> s_len sc = 1%nat ->
+  sl_read (hp st) sc = [card] -> eval st (EIdx (EFld e 1) (EInt 0)) = EV (VInt card).
+Proof.
+  intros st e sw sc card He Hl Hr. cbn [eval]. rewrite He. unfold pbset_val. gocbn.
+  rewrite idx_in by lia. change (Z.to_nat 0) with 0%nat.
+  rewrite <- nth_sl_read by lia. rewrite Hr. reflexivity.
+Qed.
+
+Lemma card_nth : forall h sc card, s_len sc = 1%nat -> sl_read h sc = [card] ->
+  nth (s_off sc + 0) (arr_of h (s_arr sc)) 0 = card.
+Proof. intros h sc card Hl Hr. rewrite <- nth_sl_read by lia. rewrite Hr. reflexivity. Qed.
+
+(* evaluation of an expression that reads the boxed card: [Hcn] is [card_nth] in the current heap *)
+Ltac evcard Hcn := ev; rewrite ?idx_in by lia; change (Z.to_nat 0) with 0%nat; rewrite ?Hcn; ev.
+
+Lemma runs_card_set : forall fe st e e2 sw sc y, eval st e = EV (pbset_val sw sc) -> eval st e2 = EV (VInt y) ->
+  s_len sc = 1%nat ->
+  runs fe (SSetIdx (EFld e 1) (EInt 0) e2) st (ONormal (St (locals st) (card_set (hp st) sc y))).
+Proof.
+  intros fe st e e2 sw sc y He He2 Hl.
+  apply (runs_setidx fe _ _ _ st sc 0 y); [|reflexivity|exact He2|lia].
+  cbn [eval]. rewrite He. reflexivity.
+Qed.
+
+Lemma card_set_read : forall h sc card y, slice_ok h sc -> s_len sc = 1%nat -> sl_read h sc = [card] ->
+  sl_read (card_set h sc y) sc = [y].
+Proof.
+  intros h sc card y Hok Hl Hr. unfold card_set. rewrite sl_read_write_nth by (try exact Hok; lia).
+  rewrite Hr. reflexivity.
+Qed.
+
+Lemma card_set_read_other : forall h sc y t, s_arr t <> s_arr sc -> sl_read (card_set h sc y) t = sl_read h t.
+Proof. intros h sc y t H. unfold card_set. apply sl_read_heap_write_other. exact H. Qed.
+
+Lemma card_set_wins : forall ss h0 h sc y, only_wins ss h0 h -> In sc ss -> s_len sc = 1%nat ->
+  only_wins ss h0 (card_set h sc y).
+Proof. intros ss h0 h sc y H Hin Hl. unfold card_set. apply only_wins_write; [exact H|exact Hin|lia]. Qed.
+
+Lemma card_set_ok : forall h sc y t, slice_ok h t -> slice_ok (card_set h sc y) t.
+Proof. intros h sc y t H. unfold card_set. apply slice_ok_heap_write. exact H. Qed.
+
+Lemma pbset_at_card_set : forall h sw sc ws card y, pbset_at h sw sc (ws, card) ->
+  pbset_at (card_set h sc y) sw sc (ws, y).
+Proof.
+  intros h sw sc ws card y (A & B & C & D & E & F). cbn [fst snd] in *. unfold pbset_at. cbn [fst snd].
+  refine (conj _ (conj _ (conj C (conj D (conj _ _))))).
+  - apply card_set_ok. exact A.
+  - apply card_set_ok. exact B.
+  - rewrite card_set_read_other by exact C. exact E.
+  - eapply card_set_read; eassumption.
+Qed.
+
+Theorem divideBy_run : forall h sw sc ws card c, c <> 0 -> pbset_at h sw sc (ws, card) ->
+  exists h', run_to go_funs "pbSet.divideBy" [pbset_val sw sc; VInt c] h (OReturn (VInt 0) h') /\
+    only_wins [sw; sc] h h' /\ pbset_at h' sw sc (divide_by c (ws, card)).
+Proof.
+  intros h sw sc ws card c Hc Hrep.
+  destruct (div_loop_run c sw sc ws card (St [("pb", pbset_val sw sc); ("coeff", VInt c)] h) Hc
+              eq_refl eq_refl Hrep) as ([loc1 h1] & Hrun & Lpb & Lc & Hfr & Hrep1).
+  cbn [locals hp] in *.
+  assert (Ec : (c =? 0) = false) by (apply Z.eqb_neq; exact Hc).
+  pose proof Hrep1 as (Hokw & Hokc & Hne & Hlc & Hrw & Hrc). cbn [fst snd] in *.
+  pose proof (card_nth h1 sc card Hlc Hrc) as Hcn.
+  exists (card_set h1 sc (div_card c card)). split; [|split].
+  - eapply run_to_intro; [reflexivity|reflexivity|]. rewrite src_divideBy_shape.
+    apply runs_seq with (st' := St loc1 (card_set h1 sc (div_card c card))); [eapply runs_seq; [exact Hrun|]|].
+    + unfold div_card_step, div_card.
+      destruct (Z.rem card c =? 0) eqn:Er.
+      * eapply runs_if_true.
+        { unfold pbset_val in *. evcard Hcn. rewrite Ec. ev. rewrite Er. reflexivity. }
+        eapply runs_card_set; [apply eval_var; exact Lpb| |exact Hlc].
+        unfold pbset_val in *. evcard Hcn. rewrite Ec. ev. reflexivity.
+      * eapply runs_if_false.
+        { unfold pbset_val in *. evcard Hcn. rewrite Ec. ev. rewrite Er. reflexivity. }
+        eapply runs_card_set; [apply eval_var; exact Lpb| |exact Hlc].
+        unfold pbset_val in *. evcard Hcn. rewrite Ec. ev. reflexivity.
+    + apply (runs_exec go_funs 1); [reflexivity|discriminate].
+  - apply card_set_wins; [exact Hfr|right; left; reflexivity|exact Hlc].
+  - unfold divide_by. cbn [fst snd]. eapply pbset_at_card_set. exact Hrep1.
+Qed.
+
+(* coeff = 0: the run always panics (at the first non-zero weight: [wj % 0]; when every weight is 0: [card % 0]) *)
+Lemma first_nonzero : forall ws : list Z,
+  (forall j, nth j ws 0 = 0) \/
+  (exists j, (j < length ws)%nat /\ nth j ws 0 <> 0 /\ forall i, (i < j)%nat -> nth i ws 0 = 0).
+Proof.
+  induction ws as [|w ws IH].
+  - left. intros [|j]; reflexivity.
+  - destruct (Z.eq_dec w 0) as [->|Hw].
+    + destruct IH as [Hall|(j & Hj & Hnz & Hb)].
+      * left. intros [|j]; [reflexivity|apply Hall].
+      * right. exists (S j). cbn [length nth]. split; [lia|]. split; [exact Hnz|].
+        intros [|i] Hi; [reflexivity|]. apply Hb. lia.
+    + right. exists O. cbn [length nth]. split; [lia|]. split; [exact Hw|]. intros i Hi. lia.
+Qed.
+
+Theorem divideBy_zero_panics : forall h sw sc ws card, pbset_at h sw sc (ws, card) ->
+  run_to go_funs "pbSet.divideBy" [pbset_val sw sc; VInt 0] h OPanic.
+Proof.
+  intros h sw sc ws card Hrep.
+  pose proof (pbset_at_len _ _ _ _ Hrep) as Hlen.
+  destruct Hrep as (Hokw & Hokc & Hne & Hlc & Hrw & Hrc). cbn [fst snd] in *.
+  set (I := fun (j : nat) (st1 : state) =>
+    lookup "pb" (locals st1) = Some (pbset_val sw sc) /\ lookup "coeff" (locals st1) = Some (VInt 0) /\
+    hp st1 = h).
+  eapply run_to_intro; [reflexivity|reflexivity|]. rewrite src_divideBy_shape. unfold div_loop.
+  match goal with |- context [SRange _ _ _ ?b] => set (body := b) end.
+  set (st := St [("pb", pbset_val sw sc); ("coeff", VInt 0)] h).
+  assert (Hpre : forall j st0, (j < s_len sw)%nat -> I j st0 ->
+    range_pre "j" "wj" (get_sl sw) j st0 =
+    St (upd "wj" (VInt (nth j ws 0)) (upd "j" (VInt (Z.of_nat j)) (locals st0))) h).
+  { intros j [loc0 hp0] Hj (Lpb0 & Lc0 & Hh). cbn [locals hp] in *. subst hp0.
+    unfold range_pre, get_sl, set_local. cbn [String.eqb Ascii.eqb Bool.eqb locals hp].
+    rewrite <- nth_sl_read by exact Hj. rewrite Hrw. reflexivity. }
+  assert (Hzero : forall j st0, (j < s_len sw)%nat -> I j st0 -> nth j ws 0 = 0 ->
+    exists ob st1, runs go_funs body (range_pre "j" "wj" (get_sl sw) j st0) ob /\ goes_on ob st1 /\ I (S j) st1).
+  { intros j st0 Hj HI Hw. rewrite (Hpre j st0 Hj HI). rewrite Hw. destruct HI as (Lpb0 & Lc0 & Hh).
+    eexists (OContinue _), _. split; [|split; [apply goes_on_continue|]].
+    - apply runs_seq_abrupt; [|exact Logic.I]. eapply runs_if_true; [|apply runs_continue]. ev. reflexivity.
+    - unfold I. cbn [locals hp]. lk. refine (conj Lpb0 (conj Lc0 eq_refl)). }
+  assert (Ha : eval st (EFld (EVar "pb") 0) = EV (VSl sw)) by reflexivity.
+  assert (HI0 : I O st) by (unfold I, st; cbn [locals hp]; auto).
+  destruct (first_nonzero ws) as [Hall|(j & Hj & Hnz & Hb)].
+  - destruct (runs_range_inv_c go_funs "j" "wj" (EFld (EVar "pb") 0) body st sw I Ha HI0)
+      as ([loc1 h1] & Hrun & (Lpb & Lc & Hh)).
+    { intros j st0 Hj HI. apply Hzero; [exact Hj|exact HI|apply Hall]. }
+    cbn [locals hp] in *. subst h1.
+    apply runs_seq_abrupt; [|exact Logic.I]. eapply runs_seq; [exact Hrun|].
+    unfold div_card_step. apply runs_if_panic.
+    pose proof (card_nth h sc card Hlc Hrc) as Hcn.
+    unfold pbset_val in *. evcard Hcn. reflexivity.
+  - apply runs_seq_abrupt; [|exact Logic.I]. apply runs_seq_abrupt; [|exact Logic.I].
+    apply (runs_range_inv_abrupt go_funs "j" "wj" (EFld (EVar "pb") 0) body st sw I j OPanic Ha HI0).
+    + intros j0 st0 Hj0 HI. apply Hzero; [lia|exact HI|apply Hb; exact Hj0].
+    + intros st0 HI. rewrite (Hpre j st0 ltac:(lia) HI). destruct HI as (Lpb0 & Lc0 & Hh).
+      assert (Ew : (nth j ws 0 =? 0) = false) by (apply Z.eqb_neq; exact Hnz).
+      eapply runs_seq; [eapply runs_if_false; [|apply runs_skip]|].
+      * ev. rewrite Ew. reflexivity.
+      * apply runs_if_panic. ev. reflexivity.
+    + exact Logic.I.
+    + lia.
+Qed.
+
+(* ================================================================== pbSet.clash *)
+
+Lemma clash_ws_snoc : forall l w2 a,
+  clash_ws (l ++ [a]) w2 =
+  (fst (clash_ws l w2) ++ [a + nth (length l) w2 0],
+   snd (clash_ws l w2) +
+   (if a * nth (length l) w2 0 <? 0 then Z.min (Z.abs a) (Z.abs (nth (length l) w2 0)) else 0)).
+Proof.
+  induction l as [|x r IH]; intros w2 a.
+  - cbn [app clash_ws length fst snd]. replace (nth 0 w2 0) with (hd 0 w2) by (destruct w2; reflexivity).
+    f_equal. lia.
+  - cbn [app clash_ws length]. rewrite IH. destruct (clash_ws r (tl w2)) as [r' k]. cbn [fst snd app].
+    replace (nth (S (length r)) w2 0) with (nth (length r) (tl w2) 0)
+      by (destruct w2; [destruct (length r); reflexivity|reflexivity]).
+    f_equal. lia.
+Qed.
+
+Lemma length_clash_ws : forall l w2, length (fst (clash_ws l w2)) = length l.
+Proof.
+  induction l as [|x r IH]; intros w2; [reflexivity|].
+  cbn [clash_ws]. specialize (IH (tl w2)). destruct (clash_ws r (tl w2)) as [r' k]. cbn [fst length] in *.
+  rewrite IH. reflexivity.
+Qed.
+
+Definition clash_loop : stmt :=
+  Eval cbv in match f_body src_pbSet_clash with SSeq (SSeq _ l) _ => l | _ => SSkip end.
+Definition clash_first : stmt :=
+  Eval cbv in match f_body src_pbSet_clash with SSeq (SSeq s _) _ => s | _ => SSkip end.
+Definition clash_body : stmt :=
+  Eval cbv in match clash_loop with SRange _ _ _ b => b | _ => SSkip end.
+
+Lemma src_clash_shape : f_body src_pbSet_clash =
+  SSeq (SSeq clash_first (SRange "i" "w1" (EFld (EVar "pb1") 0) clash_body)) (SReturn (EInt 0)).
+Proof. reflexivity. Qed.
+
+Definition clash_inv (h : heap) (sw1 sc1 sw2 sc2 : slice) (ws1 : list Z) (c1 : Z) (ws2 : list Z) (c2 : Z)
+  (i : nat) (st1 : state) : Prop :=
+  lookup "pb1" (locals st1) = Some (pbset_val sw1 sc1) /\ lookup "pb2" (locals st1) = Some (pbset_val sw2 sc2) /\
+  only_wins [sw1; sc1] h (hp st1) /\
+  sl_read (hp st1) sw1 = fst (clash_ws (firstn i ws1) ws2) ++ skipn i ws1 /\
+  sl_read (hp st1) sc1 = [c1 + c2 - snd (clash_ws (firstn i ws1) ws2)].
+
+(* the state in which turn [i] starts *)
+Lemma clash_pre : forall h sw1 sc1 sw2 sc2 ws1 c1 ws2 c2 i st0,
+  (i < length ws1)%nat -> s_len sw1 = length ws1 ->
+  clash_inv h sw1 sc1 sw2 sc2 ws1 c1 ws2 c2 i st0 ->
+  range_pre "i" "w1" (get_sl sw1) i st0 =
+  St (upd "w1" (VInt (nth i ws1 0)) (upd "i" (VInt (Z.of_nat i)) (locals st0))) (hp st0).
+Proof.
+  intros h sw1 sc1 sw2 sc2 ws1 c1 ws2 c2 i [loc0 hp0] Hi Hlen (L1 & L2 & Hfr & Hrd & Hrdc).
+  cbn [locals hp] in *.
+  unfold range_pre, get_sl, set_local. cbn [String.eqb Ascii.eqb Bool.eqb locals hp].
+  rewrite <- nth_sl_read by lia. rewrite Hrd, nth_prefix_skipn; [reflexivity|].
+  rewrite length_clash_ws, firstn_length_le; lia.
+Qed.
+
+Lemma clash_turn : forall h sw1 sc1 sw2 sc2 ws1 c1 ws2 c2,
+  pbset_at h sw1 sc1 (ws1, c1) -> pbset_at h sw2 sc2 (ws2, c2) ->
+  s_arr sw1 <> s_arr sw2 -> s_arr sc1 <> s_arr sw2 ->
+  forall i st0, (i < length ws1)%nat -> (i < length ws2)%nat ->
+  clash_inv h sw1 sc1 sw2 sc2 ws1 c1 ws2 c2 i st0 ->
+  exists ob st1, runs go_funs clash_body (range_pre "i" "w1" (get_sl sw1) i st0) ob /\ goes_on ob st1 /\
+    clash_inv h sw1 sc1 sw2 sc2 ws1 c1 ws2 c2 (S i) st1.
+Proof.
+  intros h sw1 sc1 sw2 sc2 ws1 c1 ws2 c2 Hrep1 Hrep2 Dww Dcw i st0 Hi Hi2 HI.
+  pose proof (pbset_at_len _ _ _ _ Hrep1) as Hlen1. pose proof (pbset_at_len _ _ _ _ Hrep2) as Hlen2.
+  cbn [fst] in Hlen1, Hlen2.
+  rewrite (clash_pre _ _ _ _ _ _ _ _ _ _ _ Hi Hlen1 HI).
+  destruct st0 as [loc0 hp0]. destruct HI as (L1 & L2 & Hfr & Hrd & Hrdc). cbn [locals hp] in *.
+  destruct Hrep1 as (Hokw1 & Hokc1 & Hne1 & Hlc1 & Hrw1 & Hrc1).
+  destruct Hrep2 as (Hokw2 & Hokc2 & Hne2 & Hlc2 & Hrw2 & Hrc2). cbn [fst snd] in *.
+  set (P := fst (clash_ws (firstn i ws1) ws2)) in *. set (K := snd (clash_ws (firstn i ws1) ws2)) in *.
+  assert (HlenP : length P = i) by (unfold P; rewrite length_clash_ws, firstn_length_le; lia).
+  set (w1 := nth i ws1 0). set (w2 := nth i ws2 0).
+  assert (Hsn : firstn (S i) ws1 = firstn i ws1 ++ [w1]) by (apply firstn_S_nth; lia).
+  assert (Hleni : length (firstn i ws1) = i) by (apply firstn_length_le; lia).
+  assert (Hnth1 : nth (s_off sw1 + i) (arr_of hp0 (s_arr sw1)) 0 = w1).
+  { rewrite <- nth_sl_read by lia. rewrite Hrd. apply nth_prefix_skipn. exact HlenP. }
+  assert (Hnth2 : nth (s_off sw2 + i) (arr_of hp0 (s_arr sw2)) 0 = w2).
+  { rewrite <- nth_sl_read by lia.
+    rewrite (only_wins_read_other [sw1; sc1] h hp0 sw2 Hfr), Hrw2; [reflexivity|].
+    intros s [<-|[<-|[]]]; assumption. }
+  set (pre := St (upd "w1" (VInt w1) (upd "i" (VInt (Z.of_nat i)) loc0)) hp0).
+  set (st1 := St (upd "w2" (VInt w2) (locals pre)) hp0).
+  set (hp1 := heap_write hp0 (s_arr sw1) (s_off sw1 + i) [w1 + w2]).
+  set (st2 := St (locals st1) hp1).
+  assert (R1 : runs go_funs (SSet "w2" (EIdx (EFld (EVar "pb2") 0) (EVar "i"))) pre (ONormal st1)).
+  { apply runs_set. unfold pre, pbset_val in *. ev. rewrite idx_in by lia. rewrite Nat2Z.id, Hnth2. reflexivity. }
+  assert (R2 : runs go_funs (SSetIdx (EFld (EVar "pb1") 0) (EVar "i")
+                  (EBin Add (EIdx (EFld (EVar "pb1") 0) (EVar "i")) (EVar "w2"))) st1 (ONormal st2)).
+  { assert (R : runs go_funs (SSetIdx (EFld (EVar "pb1") 0) (EVar "i")
+                  (EBin Add (EIdx (EFld (EVar "pb1") 0) (EVar "i")) (EVar "w2"))) st1
+              (ONormal (St (locals st1) (heap_write (hp st1) (s_arr sw1) (s_off sw1 + Z.to_nat (Z.of_nat i)) [w1 + w2])))).
+    { apply (runs_setidx go_funs _ _ _ st1 sw1 (Z.of_nat i) (w1 + w2)); [| | |lia].
+      - unfold st1, pre, pbset_val in *. ev. reflexivity.
+      - unfold st1, pre. ev. reflexivity.
+      - unfold st1, pre, pbset_val in *. ev. rewrite idx_in by lia. rewrite Nat2Z.id, Hnth1. ev. reflexivity. }
+    rewrite Nat2Z.id in R. exact R. }
+  assert (Hfr1 : only_wins [sw1; sc1] h hp1).
+  { apply only_wins_write; [exact Hfr|left; reflexivity|lia]. }
+  assert (Hrd1 : sl_read hp1 sw1 = fst (clash_ws (firstn (S i) ws1) ws2) ++ skipn (S i) ws1).
+  { unfold hp1. rewrite sl_read_write_nth by (try lia; eapply only_wins_ok; eassumption).
+    rewrite Hrd, prefix_step by exact HlenP. rewrite Hsn, clash_ws_snoc. cbn [fst]. rewrite Hleni. reflexivity. }
+  assert (Hrdc1 : sl_read hp1 sc1 = [c1 + c2 - K]).
+  { unfold hp1. rewrite sl_read_heap_write_other by congruence. exact Hrdc. }
+  assert (HK : snd (clash_ws (firstn (S i) ws1) ws2) =
+               K + (if w1 * w2 <? 0 then Z.min (Z.abs w1) (Z.abs w2) else 0)).
+  { rewrite Hsn, clash_ws_snoc. cbn [snd]. rewrite Hleni. reflexivity. }
+  destruct (w1 * w2 <? 0) eqn:Em.
+  - (* opposite polarities: the card loses min(|w1|, |w2|) *)
+    set (y := c1 + c2 - K - Z.min (Z.abs w1) (Z.abs w2)).
+    set (loc3 := upd "$3" (VInt (Z.min (Z.abs w1) (Z.abs w2)))
+                   (upd "$2" (VInt (Z.abs w2)) (upd "$1" (VInt (Z.abs w1)) (locals st2)))).
+    exists (ONormal (St loc3 (card_set hp1 sc1 y))), (St loc3 (card_set hp1 sc1 y)).
+    split; [|split; [apply goes_on_normal|]].
+    + unfold clash_body. eapply runs_seq; [exact R1|]. eapply runs_seq; [exact R2|].
+      eapply runs_if_true; [unfold st2, st1, pre; ev; rewrite Em; reflexivity|].
+      eapply runs_seq.
+      { eapply runs_call_run; [|apply abs_run]. unfold st2, st1, pre. ev. reflexivity. }
+      eapply runs_seq.
+      { eapply runs_call_run; [|apply abs_run]. unfold st2, st1, pre. ev. reflexivity. }
+      eapply runs_seq.
+      { eapply runs_call_run; [|apply min_run]. unfold st2, st1, pre. ev. reflexivity. }
+      cbn [hp locals].
+      pose proof (card_nth hp1 sc1 _ Hlc1 Hrdc1) as Hcn.
+      apply (runs_card_set go_funs (St loc3 hp1) (EVar "pb1") _ sw1 sc1 y); [| |exact Hlc1].
+      * apply eval_var. unfold loc3, st2, st1, pre. cbn [locals]. lk. exact L1.
+      * unfold loc3, st2, st1, pre, pbset_val in *. evcard Hcn. reflexivity.
+    + unfold clash_inv, loc3, st2, st1, pre. cbn [locals hp]. lk.
+      refine (conj L1 (conj L2 (conj _ (conj _ _)))).
+      * apply card_set_wins; [exact Hfr1|right; left; reflexivity|exact Hlc1].
+      * rewrite card_set_read_other by exact Hne1. exact Hrd1.
+      * rewrite (card_set_read hp1 sc1 (c1 + c2 - K) y) by
+          (try assumption; eapply only_wins_ok; eassumption).
+        rewrite HK. unfold y. f_equal. lia.
+  - exists (ONormal st2), st2. split; [|split; [apply goes_on_normal|]].
+    + unfold clash_body. eapply runs_seq; [exact R1|]. eapply runs_seq; [exact R2|].
+      eapply runs_if_false; [unfold st2, st1, pre; ev; rewrite Em; reflexivity|apply runs_skip].
+    + unfold clash_inv, st2, st1, pre. cbn [locals hp]. lk.
+      refine (conj L1 (conj L2 (conj Hfr1 (conj Hrd1 _)))).
+      rewrite Hrdc1, HK. f_equal. lia.
+Qed.
+
+(* the statement before the loop: pb1.card += pb2.card *)
+Lemma clash_first_run : forall h sw1 sc1 sw2 sc2 ws1 c1 ws2 c2 vs,
+  pbset_at h sw1 sc1 (ws1, c1) -> pbset_at h sw2 sc2 (ws2, c2) -> s_arr sc1 <> s_arr sc2 ->
+  let st := St [("pb1", pbset_val sw1 sc1); ("s", vs); ("pb2", pbset_val sw2 sc2)] h in
+  runs go_funs clash_first st (ONormal (St (locals st) (card_set h sc1 (c1 + c2)))) /\
+  clash_inv h sw1 sc1 sw2 sc2 ws1 c1 ws2 c2 O (St (locals st) (card_set h sc1 (c1 + c2))).
+Proof.
+  intros h sw1 sc1 sw2 sc2 ws1 c1 ws2 c2 vs Hrep1 Hrep2 Dcc st.
+  destruct Hrep1 as (Hokw1 & Hokc1 & Hne1 & Hlc1 & Hrw1 & Hrc1).
+  destruct Hrep2 as (Hokw2 & Hokc2 & Hne2 & Hlc2 & Hrw2 & Hrc2). cbn [fst snd] in *.
+  pose proof (card_nth h sc1 c1 Hlc1 Hrc1) as Hcn1. pose proof (card_nth h sc2 c2 Hlc2 Hrc2) as Hcn2.
+  split.
+  - unfold clash_first. apply (runs_card_set go_funs st (EVar "pb1") _ sw1 sc1 (c1 + c2)); [reflexivity| |exact Hlc1].
+    unfold st, pbset_val. ev. rewrite !idx_in by lia. change (Z.to_nat 0) with 0%nat. rewrite Hcn1, Hcn2. ev.
+    reflexivity.
+  - unfold clash_inv, st. cbn [locals hp firstn skipn clash_ws fst snd app lookup String.eqb Ascii.eqb Bool.eqb].
+    refine (conj eq_refl (conj eq_refl (conj _ (conj _ _)))).
+    + apply card_set_wins; [apply only_wins_refl|right; left; reflexivity|exact Hlc1].
+    + rewrite card_set_read_other by exact Hne1. exact Hrw1.
+    + rewrite (card_set_read h sc1 c1) by assumption. f_equal. lia.
+Qed.
+
+Theorem clash_run : forall h sw1 sc1 sw2 sc2 ws1 c1 ws2 c2 vs,
+  pbset_at h sw1 sc1 (ws1, c1) -> pbset_at h sw2 sc2 (ws2, c2) ->
+  s_arr sw1 <> s_arr sw2 -> s_arr sw1 <> s_arr sc2 -> s_arr sc1 <> s_arr sw2 -> s_arr sc1 <> s_arr sc2 ->
+  (length ws1 <= length ws2)%nat ->
+  exists h', run_to go_funs "pbSet.clash" [pbset_val sw1 sc1; vs; pbset_val sw2 sc2] h (OReturn (VInt 0) h') /\
+    only_wins [sw1; sc1] h h' /\
+    pbset_at h' sw1 sc1 (clash (ws1, c1) (ws2, c2)) /\ pbset_at h' sw2 sc2 (ws2, c2).
+Proof.
+  intros h sw1 sc1 sw2 sc2 ws1 c1 ws2 c2 vs Hrep1 Hrep2 Dww Dwc Dcw Dcc Hle.
+  pose proof (pbset_at_len _ _ _ _ Hrep1) as Hlen1. cbn [fst] in Hlen1.
+  destruct (clash_first_run h sw1 sc1 sw2 sc2 ws1 c1 ws2 c2 vs Hrep1 Hrep2 Dcc) as (R0 & HI0).
+  cbv zeta in R0, HI0.
+  set (st := St [("pb1", pbset_val sw1 sc1); ("s", vs); ("pb2", pbset_val sw2 sc2)] h) in *.
+  set (st0 := St (locals st) (card_set h sc1 (c1 + c2))) in *.
+  destruct (runs_range_inv_c go_funs "i" "w1" (EFld (EVar "pb1") 0) clash_body st0 sw1
+              (clash_inv h sw1 sc1 sw2 sc2 ws1 c1 ws2 c2)) as ([loc' h'] & Hrun & HI).
+  - reflexivity.
+  - exact HI0.
+  - intros j stj Hj HIj. apply clash_turn; try assumption; lia.
+  - destruct HI as (L1 & L2 & Hfr & Hrd & Hrdc). cbn [locals hp] in *.
+    rewrite Hlen1, firstn_all, skipn_all, app_nil_r in Hrd. rewrite Hlen1, firstn_all in Hrdc.
+    exists h'. split; [|split; [exact Hfr|split]].
+    + eapply run_to_intro; [reflexivity|reflexivity|]. rewrite src_clash_shape.
+      eapply runs_seq; [eapply runs_seq; [exact R0|exact Hrun]|].
+      apply (runs_exec go_funs 1); [reflexivity|discriminate].
+    + pose proof Hrep1 as (Hokw1 & Hokc1 & Hne1 & Hlc1 & Hrw1 & Hrc1).
+      unfold clash. cbn [fst snd]. destruct (clash_ws ws1 ws2) as [w k]. cbn [fst snd] in *.
+      unfold pbset_at. cbn [fst snd].
+      refine (conj _ (conj _ (conj Hne1 (conj Hlc1 (conj Hrd Hrdc))))); eapply only_wins_ok; eassumption.
+    + eapply pbset_at_frame; [exact Hrep2|exact Hfr| |].
+      * intros t [<-|[<-|[]]]; assumption.
+      * intros t [<-|[<-|[]]]; assumption.
+Qed.
+
+(* pb2 shorter than pb1: index out of range at turn len(pb2.weights) *)
+Theorem clash_short_panics : forall h sw1 sc1 sw2 sc2 ws1 c1 ws2 c2 vs,
+  pbset_at h sw1 sc1 (ws1, c1) -> pbset_at h sw2 sc2 (ws2, c2) ->
+  s_arr sw1 <> s_arr sw2 -> s_arr sw1 <> s_arr sc2 -> s_arr sc1 <> s_arr sw2 -> s_arr sc1 <> s_arr sc2 ->
+  (length ws2 < length ws1)%nat ->
+  run_to go_funs "pbSet.clash" [pbset_val sw1 sc1; vs; pbset_val sw2 sc2] h OPanic.
+Proof.
+  intros h sw1 sc1 sw2 sc2 ws1 c1 ws2 c2 vs Hrep1 Hrep2 Dww Dwc Dcw Dcc Hlt.
+  pose proof (pbset_at_len _ _ _ _ Hrep1) as Hlen1. pose proof (pbset_at_len _ _ _ _ Hrep2) as Hlen2.
+  cbn [fst] in Hlen1, Hlen2.
+  destruct (clash_first_run h sw1 sc1 sw2 sc2 ws1 c1 ws2 c2 vs Hrep1 Hrep2 Dcc) as (R0 & HI0).
+  cbv zeta in R0, HI0.
+  set (st := St [("pb1", pbset_val sw1 sc1); ("s", vs); ("pb2", pbset_val sw2 sc2)] h) in *.
+  set (st0 := St (locals st) (card_set h sc1 (c1 + c2))) in *.
+  eapply run_to_intro; [reflexivity|reflexivity|]. rewrite src_clash_shape.
+  apply runs_seq_abrupt; [|exact Logic.I]. eapply runs_seq; [exact R0|].
+  apply (runs_range_inv_abrupt go_funs "i" "w1" (EFld (EVar "pb1") 0) clash_body st0 sw1
+           (clash_inv h sw1 sc1 sw2 sc2 ws1 c1 ws2 c2) (length ws2) OPanic).
+  - reflexivity.
+  - exact HI0.
+  - intros j stj Hj HIj. apply clash_turn; try assumption; lia.
+  - intros stj HIj. rewrite (clash_pre _ _ _ _ _ _ _ _ _ _ _ Hlt Hlen1 HIj).
+    destruct stj as [locj hpj]. destruct HIj as (L1 & L2 & _). cbn [locals hp] in *.
+    unfold clash_body. apply runs_seq_abrupt; [|exact Logic.I]. apply runs_set_panic.
+    unfold pbset_val in *. ev. rewrite idx_out by lia. reflexivity.
+  - exact Logic.I.
+  - lia.
+Qed.
+
+(* ================================================================== pbSet.falsifies *)
+
+(* the Go code takes the internal encoding of a literal ([go_IntToLit l], l the DIMACS literal of the model) *)
+Lemma quot_IntToLit : forall l, l <> 0 -> Z.quot (go_IntToLit l) 2 = Z.abs l - 1.
+Proof. intros l Hl. pose proof (Lit_Var l Hl) as H. unfold go_Var_Int, go_Lit_Var in H. lia. Qed.
+
+Lemma rem_IntToLit : forall l, l <> 0 -> (Z.rem (go_IntToLit l) 2 =? 0) = (0 <? l).
+Proof. intros l Hl. apply (IsPositive l Hl). Qed.
+
+Theorem falsifies_run : forall h sw sc ws card l, pbset_at h sw sc (ws, card) ->
+  l <> 0 -> Z.abs l <= Z.of_nat (length ws) ->
+  run_to go_funs "pbSet.falsifies" [pbset_val sw sc; VInt (go_IntToLit l)] h
+    (OReturn (VBool (falsifies (ws, card) l)) h).
+Proof.
+  intros h sw sc ws card l Hrep Hl Hin.
+  pose proof (pbset_at_len _ _ _ _ Hrep) as Hlen. cbn [fst] in Hlen.
+  destruct Hrep as (Hokw & Hokc & Hne & Hlc & Hrw & Hrc). cbn [fst snd] in *.
+  set (lit := go_IntToLit l). set (k := Z.to_nat (Z.abs l - 1)).
+  set (w := nth k ws 0).
+  assert (Hw : nth (s_off sw + k) (arr_of h (s_arr sw)) 0 = w).
+  { rewrite <- nth_sl_read by lia. rewrite Hrw. reflexivity. }
+  enter. eapply runs_seq.
+  { eapply runs_call_run; [reflexivity|apply Lit_Var_run]. }
+  cbn [locals hp upd String.eqb Ascii.eqb Bool.eqb]. fold lit. unfold lit at 2. rewrite (quot_IntToLit l Hl).
+  eapply runs_seq.
+  { apply runs_set. unfold pbset_val. ev. rewrite idx_in by lia. fold k. rewrite Hw. reflexivity. }
+  unfold set_local. cbn [locals hp upd String.eqb Ascii.eqb Bool.eqb].
+  unfold falsifies. cbn [fst]. fold k. fold w.
+  destruct (w =? 0) eqn:Ew.
+  - apply runs_seq_abrupt; [|exact Logic.I]. eapply runs_if_true; [ev; rewrite Ew; reflexivity|].
+    apply (runs_exec go_funs 1); [reflexivity|discriminate].
+  - eapply runs_seq; [eapply runs_if_false; [ev; rewrite Ew; reflexivity|apply runs_skip]|].
+    eapply runs_seq.
+    { eapply runs_call_run; [reflexivity|apply Lit_IsPositive_run]. }
+    cbn [locals hp upd String.eqb Ascii.eqb Bool.eqb]. unfold lit. rewrite (rem_IntToLit l Hl).
+    apply (runs_exec go_funs 1); [reflexivity|discriminate].
+Qed.
+
+(* the same for any value of type Lit (a non-negative int) whose variable is in range *)
+Corollary falsifies_run_lit : forall h sw sc ws card lit, pbset_at h sw sc (ws, card) ->
+  0 <= lit -> Z.quot lit 2 < Z.of_nat (length ws) ->
+  run_to go_funs "pbSet.falsifies" [pbset_val sw sc; VInt lit] h
+    (OReturn (VBool (falsifies (ws, card) (go_Lit_Int lit))) h).
+Proof.
+  intros h sw sc ws card lit Hrep Hl Hin.
+  destruct (IntToLit_Lit_Int lit Hl) as (E & Hnz).
+  pose proof (quot_IntToLit (go_Lit_Int lit) Hnz) as Hq. rewrite E in Hq.
+  rewrite <- E at 1. apply falsifies_run; [exact Hrep|exact Hnz|lia].
+Qed.
+
+(* corner: a literal whose variable is beyond the weights: the Go code panics (index out of range),
+   the model of Model/CP.v answers false *)
+Theorem falsifies_out_of_range_observation : forall h sw sc ws card l, pbset_at h sw sc (ws, card) ->
+  l <> 0 -> Z.of_nat (length ws) < Z.abs l ->
+  run_to go_funs "pbSet.falsifies" [pbset_val sw sc; VInt (go_IntToLit l)] h OPanic /\
+  falsifies (ws, card) l = false.
+Proof.
+  intros h sw sc ws card l Hrep Hl Hout.
+  pose proof (pbset_at_len _ _ _ _ Hrep) as Hlen. cbn [fst] in Hlen.
+  split.
+  - enter. eapply runs_seq.
+    { eapply runs_call_run; [reflexivity|apply Lit_Var_run]. }
+    cbn [locals hp upd String.eqb Ascii.eqb Bool.eqb]. rewrite (quot_IntToLit l Hl).
+    apply runs_seq_abrupt; [|exact Logic.I]. apply runs_set_panic.
+    unfold pbset_val. ev. rewrite idx_out by lia. reflexivity.
+  - unfold falsifies. cbn [fst]. rewrite nth_overflow by lia. reflexivity.
+Qed.
+
+(* ================================================================== pbSet.roundToOne *)
+
+Definition wk_cond (wi a w : Z) : bool := negb (Z.rem w wi =? 0) && not_falsified a w.
+Definition wk_w (wi a w : Z) : Z := if w =? 0 then w else if wk_cond wi a w then 0 else w.
+Definition wk_k (wi a w : Z) : Z := if w =? 0 then 0 else if wk_cond wi a w then Z.abs w else 0.
+
+Lemma weaken_ws_snoc : forall wi l assign w,
+  weaken_ws wi assign (l ++ [w]) =
+  (fst (weaken_ws wi assign l) ++ [wk_w wi (nth (length l) assign 0) w],
+   snd (weaken_ws wi assign l) + wk_k wi (nth (length l) assign 0) w).
+Proof.
+  intros wi. induction l as [|x r IH]; intros assign w.
+  - cbn [app weaken_ws length fst snd]. unfold wk_w, wk_k, wk_cond.
+    replace (nth 0 assign 0) with (hd 0 assign) by (destruct assign; reflexivity).
+    destruct (w =? 0); [reflexivity|].
+    destruct (negb (Z.rem w wi =? 0) && not_falsified (hd 0 assign) w); cbn [fst snd app]; f_equal; lia.
+  - cbn [app weaken_ws length]. rewrite IH. destruct (weaken_ws wi (tl assign) r) as [r' k]. cbn [fst snd].
+    replace (nth (S (length r)) assign 0) with (nth (length r) (tl assign) 0)
+      by (destruct assign; [destruct (length r); reflexivity|reflexivity]).
+    destruct (x =? 0); [reflexivity|].
+    destruct (negb (Z.rem x wi =? 0) && not_falsified (hd 0 assign) x); cbn [fst snd app]; f_equal; lia.
+Qed.
+
+Lemma length_weaken_ws : forall wi l assign, length (fst (weaken_ws wi assign l)) = length l.
+Proof.
+  intros wi. induction l as [|x r IH]; intros assign; [reflexivity|].
+  cbn [weaken_ws]. specialize (IH (tl assign)). destruct (weaken_ws wi (tl assign) r) as [r' k].
+  cbn [fst] in IH.
+  destruct (x =? 0); [cbn [fst length]; rewrite IH; reflexivity|].
+  destruct (negb (Z.rem x wi =? 0) && not_falsified (hd 0 assign) x); cbn [fst length]; rewrite IH; reflexivity.
+Qed.
+
+Definition round_callwi : stmt :=
+  Eval cbv in match f_body src_pbSet_roundToOne with SSeq (SSeq s _) _ => s | _ => SSkip end.
+Definition round_ifone : stmt :=
+  Eval cbv in match f_body src_pbSet_roundToOne with SSeq (SSeq _ (SSeq s _)) _ => s | _ => SSkip end.
+Definition round_body : stmt :=
+  Eval cbv in match f_body src_pbSet_roundToOne with
+              | SSeq (SSeq _ (SSeq _ (SSeq (SRange _ _ _ b) _))) _ => b | _ => SSkip end.
+Definition round_calldiv : stmt :=
+  Eval cbv in match f_body src_pbSet_roundToOne with SSeq (SSeq _ (SSeq _ (SSeq _ s))) _ => s | _ => SSkip end.
+
+Lemma src_roundToOne_shape : f_body src_pbSet_roundToOne =
+  SSeq (SSeq round_callwi (SSeq round_ifone
+          (SSeq (SRange "j" "wj" (EFld (EVar "pb") 0) round_body) round_calldiv))) (SReturn (EInt 0)).
+Proof. reflexivity. Qed.
+
+Lemma eval_fld : forall st e fs k f, eval st e = EV (VStruct fs) -> nth_error fs k = Some f ->
+  eval st (EFld e k) = EV f.
+Proof. intros st e fs k f He Hk. cbn [eval]. rewrite He. cbn [ebind]. rewrite Hk. reflexivity. Qed.
+
+Definition round_inv (h : heap) (sw sc : slice) (vs : val) (ws : list Z) (card wi : Z) (model : list Z)
+  (j : nat) (st1 : state) : Prop :=
+  lookup "pb" (locals st1) = Some (pbset_val sw sc) /\ lookup "s" (locals st1) = Some vs /\
+  lookup "wi" (locals st1) = Some (VInt wi) /\
+  only_wins [sw; sc] h (hp st1) /\
+  sl_read (hp st1) sw = fst (weaken_ws wi model (firstn j ws)) ++ skipn j ws /\
+  sl_read (hp st1) sc = [card - snd (weaken_ws wi model (firstn j ws))].
+
+Lemma round_pre : forall h sw sc vs ws card wi model j st0,
+  (j < length ws)%nat -> s_len sw = length ws ->
+  round_inv h sw sc vs ws card wi model j st0 ->
+  range_pre "j" "wj" (get_sl sw) j st0 =
+  St (upd "wj" (VInt (nth j ws 0)) (upd "j" (VInt (Z.of_nat j)) (locals st0))) (hp st0).
+Proof.
+  intros h sw sc vs ws card wi model j [loc0 hp0] Hj Hlen (L1 & L2 & L3 & Hfr & Hrd & Hrdc).
+  cbn [locals hp] in *.
+  unfold range_pre, get_sl, set_local. cbn [String.eqb Ascii.eqb Bool.eqb locals hp].
+  rewrite <- nth_sl_read by lia. rewrite Hrd, nth_prefix_skipn; [reflexivity|].
+  rewrite length_weaken_ws, firstn_length_le; lia.
+Qed.
+
+Lemma round_turn : forall h sw sc vs sm strail ws card wi model trail,
+  pbset_at h sw sc (ws, card) -> solver_at h vs sm strail model trail ->
+  s_arr sm <> s_arr sw -> s_arr sm <> s_arr sc -> wi <> 0 ->
+  forall j st0, (j < length ws)%nat -> (nth j ws 0 <> 0 -> (j < length model)%nat) ->
+  round_inv h sw sc vs ws card wi model j st0 ->
+  exists ob st1, runs go_funs round_body (range_pre "j" "wj" (get_sl sw) j st0) ob /\ goes_on ob st1 /\
+    round_inv h sw sc vs ws card wi model (S j) st1.
+Proof.
+  intros h sw sc vs sm strail ws card wi model trail Hrep Hsol Dmw Dmc Hwi j st0 Hj Hjm HI.
+  pose proof (pbset_at_len _ _ _ _ Hrep) as Hlen. cbn [fst] in Hlen.
+  rewrite (round_pre _ _ _ _ _ _ _ _ _ _ Hj Hlen HI).
+  destruct st0 as [loc0 hp0]. destruct HI as (L1 & L2 & L3 & Hfr & Hrd & Hrdc). cbn [locals hp] in *.
+  destruct Hrep as (Hokw & Hokc & Hne & Hlc & Hrw & Hrc). cbn [fst snd] in *.
+  destruct Hsol as (fs & -> & Hnf & Hfm & Hft & Hokm & Hrm & Hokt & Hrt).
+  unfold fld_Solver_model in Hfm.
+  set (P := fst (weaken_ws wi model (firstn j ws))) in *. set (K := snd (weaken_ws wi model (firstn j ws))) in *.
+  assert (HlenP : length P = j) by (unfold P; rewrite length_weaken_ws, firstn_length_le; lia).
+  set (w := nth j ws 0) in *. set (a := nth j model 0).
+  assert (Hsn : firstn (S j) ws = firstn j ws ++ [w]) by (apply firstn_S_nth; lia).
+  assert (Hlenj : length (firstn j ws) = j) by (apply firstn_length_le; lia).
+  assert (Hsnoc : weaken_ws wi model (firstn (S j) ws) = (P ++ [wk_w wi a w], K + wk_k wi a w)).
+  { rewrite Hsn, weaken_ws_snoc, Hlenj. reflexivity. }
+  set (pre := St (upd "wj" (VInt w) (upd "j" (VInt (Z.of_nat j)) loc0)) hp0).
+  assert (Ewi : (wi =? 0) = false) by (apply Z.eqb_neq; exact Hwi).
+  destruct (w =? 0) eqn:Ew.
+  - (* absent variable: continue *)
+    exists (OContinue pre), pre. split; [|split; [apply goes_on_continue|]].
+    + unfold round_body. apply runs_seq_abrupt; [|exact Logic.I]. eapply runs_if_true; [|apply runs_continue].
+      unfold pre. ev. rewrite Ew. reflexivity.
+    + unfold round_inv, pre. cbn [locals hp]. lk. rewrite Hsnoc. cbn [fst snd]. unfold wk_w, wk_k. rewrite Ew.
+      refine (conj L1 (conj L2 (conj L3 (conj Hfr (conj _ _))))).
+      * rewrite Hrd. apply prefix_keep. lia.
+      * rewrite Hrdc. f_equal. lia.
+  - assert (Hjm' : (j < length model)%nat) by (apply Hjm; apply Z.eqb_neq; exact Ew).
+    assert (Hrm0 : sl_read hp0 sm = model).
+    { rewrite (only_wins_read_other [sw; sc] h hp0 sm Hfr); [exact Hrm|].
+      intros s [<-|[<-|[]]]; congruence. }
+    assert (Hlm : s_len sm = length model) by (rewrite <- Hrm; symmetry; apply length_sl_read; exact Hokm).
+    set (st1 := St (upd "assign" (VInt a) (locals pre)) hp0).
+    assert (R0 : runs go_funs (SIf (EBin Eq (EVar "wj") (EInt 0)) SContinue SSkip) pre (ONormal pre)).
+    { eapply runs_if_false; [|apply runs_skip]. unfold pre. ev. rewrite Ew. reflexivity. }
+    assert (R1 : runs go_funs (SSet "assign" (EIdx (EFld (EVar "s") 8) (EVar "j"))) pre (ONormal st1)).
+    { apply runs_set.
+      rewrite (eval_idx_sl pre _ _ sm j); [unfold pre; cbn [hp]; rewrite Hrm0; reflexivity| | |lia].
+      - eapply eval_fld; [apply eval_var; unfold pre; cbn [locals]; lk; exact L2|exact Hfm].
+      - unfold pre. ev. reflexivity. }
+    assert (Econd : eval st1 (EBin And (EBin Ne (EBin Rem (EVar "wj") (EVar "wi")) (EInt 0))
+               (EBin Or (EBin Eq (EVar "assign") (EInt 0))
+                  (EBin Eq (EBin Gt (EVar "assign") (EInt 0)) (EBin Gt (EVar "wj") (EInt 0))))) =
+             EV (VBool (wk_cond wi a w))).
+    { unfold st1, pre, wk_cond, not_falsified. ev. rewrite Ewi. ev.
+      destruct (Z.rem w wi =? 0); cbn [negb andb]; [reflexivity|].
+      destruct (a =? 0); cbn [orb]; reflexivity. }
+    unfold wk_w, wk_k in Hsnoc. rewrite Ew in Hsnoc.
+    destruct (wk_cond wi a w) eqn:Ec.
+    + (* weakened: weight to 0, card loses |w| *)
+      set (hp1 := heap_write hp0 (s_arr sw) (s_off sw + j) [0]).
+      set (y := card - K - Z.abs w).
+      set (loc3 := upd "$1" (VInt (Z.abs w)) (locals st1)).
+      exists (ONormal (St loc3 (card_set hp1 sc y))), (St loc3 (card_set hp1 sc y)).
+      assert (Hfr1 : only_wins [sw; sc] h hp1).
+      { apply only_wins_write; [exact Hfr|left; reflexivity|lia]. }
+      assert (Hrd1 : sl_read hp1 sw = (P ++ [0]) ++ skipn (S j) ws).
+      { unfold hp1. rewrite sl_read_write_nth by (try lia; eapply only_wins_ok; eassumption).
+        rewrite Hrd, prefix_step by exact HlenP. reflexivity. }
+      assert (Hrdc1 : sl_read hp1 sc = [card - K]).
+      { unfold hp1. rewrite sl_read_heap_write_other by congruence. exact Hrdc. }
+      split; [|split; [apply goes_on_normal|]].
+      * unfold round_body. eapply runs_seq; [exact R0|]. eapply runs_seq; [exact R1|].
+        eapply runs_if_true; [exact Econd|].
+        eapply runs_seq.
+        { assert (R : runs go_funs (SSetIdx (EFld (EVar "pb") 0) (EVar "j") (EInt 0)) st1
+              (ONormal (St (locals st1) (heap_write (hp st1) (s_arr sw) (s_off sw + Z.to_nat (Z.of_nat j)) [0])))).
+          { apply (runs_setidx go_funs _ _ _ st1 sw (Z.of_nat j) 0); [| |reflexivity|lia].
+            - unfold st1, pre, pbset_val in *. ev. reflexivity.
+            - unfold st1, pre. ev. reflexivity. }
+          rewrite Nat2Z.id in R. exact R. }
+        eapply runs_seq.
+        { eapply runs_call_run; [|apply abs_run]. unfold st1, pre. ev. reflexivity. }
+        cbn [hp locals]. fold hp1. fold loc3.
+        pose proof (card_nth hp1 sc _ Hlc Hrdc1) as Hcn.
+        apply (runs_card_set go_funs (St loc3 hp1) (EVar "pb") _ sw sc y); [| |exact Hlc].
+        -- apply eval_var. unfold loc3, st1, pre. cbn [locals]. lk. exact L1.
+        -- unfold loc3, st1, pre, pbset_val in *. evcard Hcn. reflexivity.
+      * unfold round_inv, loc3, st1, pre. cbn [locals hp]. lk. rewrite Hsnoc. cbn [fst snd].
+        refine (conj L1 (conj L2 (conj L3 (conj _ (conj _ _))))).
+        -- apply card_set_wins; [exact Hfr1|right; left; reflexivity|exact Hlc].
+        -- rewrite card_set_read_other by exact Hne. exact Hrd1.
+        -- rewrite (card_set_read hp1 sc (card - K) y) by (try assumption; eapply only_wins_ok; eassumption).
+           unfold y. f_equal. lia.
+    + exists (ONormal st1), st1. split; [|split; [apply goes_on_normal|]].
+      * unfold round_body. eapply runs_seq; [exact R0|]. eapply runs_seq; [exact R1|].
+        eapply runs_if_false; [exact Econd|apply runs_skip].
+      * unfold round_inv, st1, pre. cbn [locals hp]. lk. rewrite Hsnoc. cbn [fst snd].
+        refine (conj L1 (conj L2 (conj L3 (conj Hfr (conj _ _))))).
+        -- rewrite Hrd. apply prefix_keep. lia.
+        -- rewrite Hrdc. f_equal. lia.
+Qed.
+
+(* the call that computes wi = abs(pb.weights[locked]) *)
+Lemma round_callwi_run : forall h sw sc ws card vs locked lvl,
+  pbset_at h sw sc (ws, card) -> (locked < length ws)%nat ->
+  let st := St [("pb", pbset_val sw sc); ("s", vs); ("locked", VInt (Z.of_nat locked)); ("lvl", VInt lvl)] h in
+  runs go_funs round_callwi st (ONormal (St (upd "wi" (VInt (Z.abs (nth locked ws 0))) (locals st)) h)).
+Proof.
+  intros h sw sc ws card vs locked lvl Hrep Hl st.
+  pose proof (pbset_at_len _ _ _ _ Hrep) as Hlen. cbn [fst] in Hlen.
+  destruct Hrep as (Hokw & Hokc & Hne & Hlc & Hrw & Hrc). cbn [fst snd] in *.
+  unfold round_callwi. eapply runs_call_run; [|apply abs_run].
+  unfold st, pbset_val. ev. rewrite idx_in by lia. rewrite Nat2Z.id, <- nth_sl_read by lia. rewrite Hrw. reflexivity.
+Qed.
+
+Lemma round_callwi_panics : forall h sw sc ws card vs locked lvl,
+  pbset_at h sw sc (ws, card) -> (length ws <= locked)%nat ->
+  runs go_funs round_callwi
+    (St [("pb", pbset_val sw sc); ("s", vs); ("locked", VInt (Z.of_nat locked)); ("lvl", VInt lvl)] h) OPanic.
+Proof.
+  intros h sw sc ws card vs locked lvl Hrep Hl.
+  pose proof (pbset_at_len _ _ _ _ Hrep) as Hlen. cbn [fst] in Hlen.
+  unfold round_callwi. eapply runs_call_arg_panic; [reflexivity|].
+  unfold pbset_val. ev. rewrite idx_out by lia. reflexivity.
+Qed.
+
+Theorem roundToOne_run : forall h sw sc ws card vs sm strail model trail locked lvl s',
+  pbset_at h sw sc (ws, card) -> solver_at h vs sm strail model trail ->
+  s_arr sm <> s_arr sw -> s_arr sm <> s_arr sc ->
+  (forall j, (j < length ws)%nat -> nth j ws 0 <> 0 -> (j < length model)%nat) ->
+  round_to_one model locked (ws, card) = Some s' ->
+  exists h', run_to go_funs "pbSet.roundToOne" [pbset_val sw sc; vs; VInt (Z.of_nat locked); VInt lvl] h
+               (OReturn (VInt 0) h') /\
+    only_wins [sw; sc] h h' /\ pbset_at h' sw sc s'.
+Proof.
+  intros h sw sc ws card vs sm strail model trail locked lvl s' Hrep Hsol Dmw Dmc Hmod Hround.
+  pose proof (pbset_at_len _ _ _ _ Hrep) as Hlen. cbn [fst] in Hlen.
+  unfold round_to_one in Hround. cbn [fst] in Hround.
+  destruct (Nat.lt_ge_cases locked (length ws)) as [Hl|Hl];
+    [|rewrite nth_overflow in Hround by exact Hl; discriminate].
+  pose proof (round_callwi_run h sw sc ws card vs locked lvl Hrep Hl) as Rwi. cbv zeta in Rwi.
+  set (wi := Z.abs (nth locked ws 0)) in *.
+  set (st1 := St (upd "wi" (VInt wi)
+     [("pb", pbset_val sw sc); ("s", vs); ("locked", VInt (Z.of_nat locked)); ("lvl", VInt lvl)]) h) in *.
+  destruct (wi =? 1) eqn:E1.
+  - (* nothing to do *)
+    inversion Hround. subst s'. exists h. split; [|split; [apply only_wins_refl|exact Hrep]].
+    eapply run_to_intro; [reflexivity|reflexivity|]. rewrite src_roundToOne_shape.
+    apply runs_seq_abrupt; [|exact Logic.I]. eapply runs_seq; [exact Rwi|].
+    apply runs_seq_abrupt; [|exact Logic.I]. unfold round_ifone.
+    eapply runs_if_true; [ev; rewrite E1; reflexivity|].
+    apply (runs_exec go_funs 1); [reflexivity|discriminate].
+  - destruct (wi =? 0) eqn:E0; [discriminate|]. inversion Hround. subst s'. clear Hround.
+    assert (Hwi : wi <> 0) by (apply Z.eqb_neq; exact E0).
+    destruct (runs_range_inv_c go_funs "j" "wj" (EFld (EVar "pb") 0) round_body st1 sw
+                (round_inv h sw sc vs ws card wi model)) as ([loc' h1] & Hrun & HI).
+    { reflexivity. }
+    { unfold round_inv, st1. cbn [locals hp firstn skipn weaken_ws fst snd app]. lk.
+      pose proof Hrep as (Hokw & Hokc & Hne & Hlc & Hrw & Hrc). cbn [fst snd] in *.
+      refine (conj eq_refl (conj eq_refl (conj eq_refl (conj (only_wins_refl _ _) (conj Hrw _))))).
+      rewrite Hrc. f_equal. lia. }
+    { intros j stj Hj HIj. eapply round_turn; try eassumption; try lia. apply Hmod. lia. }
+    destruct HI as (L1 & L2 & L3 & Hfr & Hrd & Hrdc). cbn [locals hp] in *.
+    rewrite Hlen, firstn_all, skipn_all, app_nil_r in Hrd. rewrite Hlen, firstn_all in Hrdc.
+    assert (Hrep1 : pbset_at h1 sw sc (weaken_round wi model (ws, card))).
+    { pose proof Hrep as (Hokw & Hokc & Hne & Hlc & Hrw & Hrc).
+      unfold weaken_round. cbn [fst snd]. destruct (weaken_ws wi model ws) as [w k]. cbn [fst snd] in *.
+      unfold pbset_at. cbn [fst snd].
+      refine (conj _ (conj _ (conj Hne (conj Hlc (conj Hrd Hrdc))))); eapply only_wins_ok; eassumption. }
+    destruct (weaken_round wi model (ws, card)) as [ws1 card1] eqn:Ewr.
+    destruct (divideBy_run h1 sw sc ws1 card1 wi Hwi Hrep1) as (h2 & Rdiv & Hfr2 & Hrep2).
+    exists h2. split; [|split; [eapply only_wins_trans; eassumption|exact Hrep2]].
+    eapply run_to_intro; [reflexivity|reflexivity|]. rewrite src_roundToOne_shape.
+    apply runs_seq with (st' := St (upd "_" (VInt 0) loc') h2);
+      [|apply (runs_exec go_funs 1); [reflexivity|discriminate]].
+    eapply runs_seq; [exact Rwi|].
+    eapply runs_seq; [unfold round_ifone; eapply runs_if_false; [ev; rewrite E1; reflexivity|apply runs_skip]|].
+    eapply runs_seq; [exact Hrun|].
+    unfold round_calldiv. eapply runs_call_run; [|exact Rdiv].
+    ev. reflexivity.
+Qed.
+
+(* [round_to_one] answers None (the locked variable is absent from the constraint, or beyond the weights):
+   the run panics, whatever the model slice holds *)
+Theorem roundToOne_none_panics : forall h sw sc ws card vs sm strail model trail locked lvl,
+  pbset_at h sw sc (ws, card) -> solver_at h vs sm strail model trail ->
+  round_to_one model locked (ws, card) = None ->
+  run_to go_funs "pbSet.roundToOne" [pbset_val sw sc; vs; VInt (Z.of_nat locked); VInt lvl] h OPanic.
+Proof.
+  intros h sw sc ws card vs sm strail model trail locked lvl Hrep Hsol Hround.
+  pose proof (pbset_at_len _ _ _ _ Hrep) as Hlen. cbn [fst] in Hlen.
+  eapply run_to_intro; [reflexivity|reflexivity|]. rewrite src_roundToOne_shape.
+  apply runs_seq_abrupt; [|exact Logic.I].
+  destruct (Nat.lt_ge_cases locked (length ws)) as [Hl|Hl];
+    [|apply runs_seq_abrupt; [|exact Logic.I]; eapply round_callwi_panics; eassumption].
+  pose proof (round_callwi_run h sw sc ws card vs locked lvl Hrep Hl) as Rwi. cbv zeta in Rwi.
+  unfold round_to_one in Hround. cbn [fst] in Hround.
+  set (wi := Z.abs (nth locked ws 0)) in *.
+  destruct (wi =? 1) eqn:E1; [discriminate|]. destruct (wi =? 0) eqn:E0; [|discriminate].
+  apply Z.eqb_eq in E0. rewrite E0 in *. clear Hround.
+  set (st1 := St (upd "wi" (VInt 0)
+     [("pb", pbset_val sw sc); ("s", vs); ("locked", VInt (Z.of_nat locked)); ("lvl", VInt lvl)]) h) in *.
+  eapply runs_seq; [exact Rwi|].
+  eapply runs_seq; [unfold round_ifone; eapply runs_if_false; [ev; reflexivity|apply runs_skip]|].
+  pose proof Hrep as (Hokw & Hokc & Hne & Hlc & Hrw & Hrc). cbn [fst snd] in *.
+  destruct Hsol as (fs & -> & Hnf & Hfm & Hft & Hokm & Hrm & Hokt & Hrt).
+  unfold fld_Solver_model in Hfm.
+  set (I := fun (j : nat) (stj : state) =>
+    lookup "pb" (locals stj) = Some (pbset_val sw sc) /\ lookup "s" (locals stj) = Some (VStruct fs) /\
+    lookup "wi" (locals stj) = Some (VInt 0) /\ hp stj = h).
+  assert (Hpre : forall j st0, (j < s_len sw)%nat -> I j st0 ->
+    range_pre "j" "wj" (get_sl sw) j st0 =
+    St (upd "wj" (VInt (nth j ws 0)) (upd "j" (VInt (Z.of_nat j)) (locals st0))) h).
+  { intros j [loc0 hp0] Hj (L1 & L2 & L3 & Hh). cbn [locals hp] in *. subst hp0.
+    unfold range_pre, get_sl, set_local. cbn [String.eqb Ascii.eqb Bool.eqb locals hp].
+    rewrite <- nth_sl_read by exact Hj. rewrite Hrw. reflexivity. }
+  assert (Hzero : forall j st0, (j < s_len sw)%nat -> I j st0 -> nth j ws 0 = 0 ->
+    exists ob st2, runs go_funs round_body (range_pre "j" "wj" (get_sl sw) j st0) ob /\ goes_on ob st2 /\
+                   I (S j) st2).
+  { intros j st0 Hj HI Hw. rewrite (Hpre j st0 Hj HI). rewrite Hw. destruct HI as (L1 & L2 & L3 & Hh).
+    eexists (OContinue _), _. split; [|split; [apply goes_on_continue|]].
+    - unfold round_body. apply runs_seq_abrupt; [|exact Logic.I].
+      eapply runs_if_true; [|apply runs_continue]. ev. reflexivity.
+    - unfold I. cbn [locals hp]. lk. refine (conj L1 (conj L2 (conj L3 eq_refl))). }
+  assert (Ha : eval st1 (EFld (EVar "pb") 0) = EV (VSl sw)) by reflexivity.
+  assert (HI0 : I O st1) by (unfold I, st1; cbn [locals hp]; lk; auto).
+  destruct (first_nonzero ws) as [Hall|(j & Hj & Hnz & Hb)].
+  - destruct (runs_range_inv_c go_funs "j" "wj" (EFld (EVar "pb") 0) round_body st1 sw I Ha HI0)
+      as ([loc1 h1] & Hrun & (L1 & L2 & L3 & Hh)).
+    { intros j st0 Hj HI. apply Hzero; [exact Hj|exact HI|apply Hall]. }
+    cbn [locals hp] in *. subst h1.
+    eapply runs_seq; [exact Hrun|]. unfold round_calldiv.
+    eapply runs_call_run_panic; [|apply (divideBy_zero_panics h sw sc ws card Hrep)].
+    ev. reflexivity.
+  - apply runs_seq_abrupt; [|exact Logic.I].
+    apply (runs_range_inv_abrupt go_funs "j" "wj" (EFld (EVar "pb") 0) round_body st1 sw I j OPanic Ha HI0).
+    + intros j0 st0 Hj0 HI. apply Hzero; [lia|exact HI|apply Hb; exact Hj0].
+    + intros st0 HI. rewrite (Hpre j st0 ltac:(lia) HI). destruct HI as (L1 & L2 & L3 & Hh).
+      assert (Ew : (nth j ws 0 =? 0) = false) by (apply Z.eqb_neq; exact Hnz).
+      unfold round_body.
+      eapply runs_seq; [eapply runs_if_false; [ev; rewrite Ew; reflexivity|apply runs_skip]|].
+      set (pre := St (upd "wj" (VInt (nth j ws 0)) (upd "j" (VInt (Z.of_nat j)) (locals st0))) h).
+      assert (Hsm : eval pre (EFld (EVar "s") 8) = EV (VSl sm)).
+      { eapply eval_fld; [apply eval_var; unfold pre; cbn [locals]; lk; exact L2|exact Hfm]. }
+      destruct (Nat.lt_ge_cases j (s_len sm)) as [Hjm|Hjm].
+      * eapply runs_seq.
+        { apply runs_set. apply (eval_idx_sl pre _ _ sm j Hsm); [unfold pre; ev; reflexivity|exact Hjm]. }
+        apply runs_if_panic. unfold set_local, pre. ev. reflexivity.
+      * apply runs_seq_abrupt; [|exact Logic.I]. apply runs_set_panic.
+        apply (eval_idx_oob pre _ _ sm (Z.of_nat j) Hsm); [unfold pre; ev; reflexivity|lia].
+    + exact Logic.I.
+    + lia.
+Qed.
